@@ -14,6 +14,8 @@ RECURSIVE PowMod(_, _)
 PowMod(b, e) == IF e = 0 THEN 1 ELSE LET h == PowMod(b, e \div 2)  hh == (h * h) % E.P IN IF e % 2 = 1 THEN (hh * (b % E.P)) % E.P ELSE hh
 RECURSIVE IPow(_, _)
 IPow(a, n) == IF n = 0 THEN 1 ELSE IF E.kind = "fld" THEN (a * IPow(a, n - 1)) % E.P ELSE a * IPow(a, n - 1)
+\* products of field elements are reduced factor by factor (TLC integers are 32-bit)
+PrdSeqM(s) == FoldSeq(LAMBDA a, b : IF E.kind = "fld" THEN (a * b) % E.P ELSE a * b, 1, s)
 ModP(A) == IF E.kind = "fld" THEN Elem1(LAMBDA v : v % E.P, A) ELSE A
 Exact(fn) ==
   CASE fn = "add" -> Elem2(LAMBDA a, b : a + b, E.A, E.B)
@@ -33,7 +35,7 @@ Exact(fn) ==
     [] fn = "matmul" -> MatMul(E.A, E.B)
     [] fn = "outer" -> Outer(E.A, E.B)
     [] fn = "sum" -> ReduceLane(SumSeq, E.A, E.axis)
-    [] fn = "prod" -> ReduceLane(PrdSeq, E.A, E.axis)
+    [] fn = "prod" -> ReduceLane(PrdSeqM, E.A, E.axis)
     [] fn = "all" -> ReduceLane(AllSeq, E.A, E.axis)
     [] fn = "any" -> ReduceLane(AnySeq, E.A, E.axis)
     [] fn = "amin" -> ReduceLane(MinSeq, E.A, E.axis)
